@@ -1,0 +1,42 @@
+//go:build verif
+
+// Contracts for gzv (contract-based deductive verification, /verif). Comment-only file.
+package executors
+
+// ---------------------------------------------------------------------------------------------
+// C11 (claimed in part: the sequential conservation steps). Containers: AddTask appends and reports the threshold,
+// RemoveAll hands out everything and leaves a container that shares nothing with what it handed out, so every task is in
+// exactly one batch. Executor: every batch obtained from RemoveAll is handed to executeTasks, which calls Execute once when
+// the batch is non-empty and balances the wait group on every exit; the flusher may quit only with no batch in flight.
+// ---------------------------------------------------------------------------------------------
+//@ func (bc *bulkContainer) AddTask
+//@   property C11
+//@   ensures len(bc.tasks) == old(len(bc.tasks)) + 1 && has(bc.tasks, task) && result == (len(bc.tasks) >= bc.maxTasks)
+//@   ensures forall(x.(any), implies(old(has(bc.tasks, x)), has(bc.tasks, x)))
+//@   modifies bc.tasks
+//@   allocates
+//@ func (bc *bulkContainer) RemoveAll
+//@   property C11
+//@   ensures bc.tasks == nil
+//@   ensures len(result.([]any)) == old(len(bc.tasks)) && forall(x.(any), boxedset(result)[x] == old(has(bc.tasks, x)))
+//@   modifies bc.tasks
+//@ func (bc *bulkContainer) Execute
+//@   property C11
+//@   flag callbacks_noheap
+//@   ensures calls(bc.execute) == old(calls(bc.execute)) + 1
+
+//@ func (bc *chunkContainer) AddTask
+//@   property C11
+//@   ensures len(bc.tasks) == old(len(bc.tasks)) + 1 && result == (bc.size >= bc.maxChunkSize)
+//@   ensures forall(x.(any), implies(old(has(bc.tasks, x)), has(bc.tasks, x)))
+//@   modifies bc.tasks, bc.size
+//@   allocates
+//@ func (bc *chunkContainer) RemoveAll
+//@   property C11
+//@   ensures bc.tasks == nil && bc.size == 0
+//@   ensures len(result.([]any)) == old(len(bc.tasks)) && forall(x.(any), boxedset(result)[x] == old(has(bc.tasks, x)))
+//@   modifies bc.tasks, bc.size
+//@ func (bc *chunkContainer) Execute
+//@   property C11
+//@   flag callbacks_noheap
+//@   ensures calls(bc.execute) == old(calls(bc.execute)) + 1
